@@ -20,6 +20,7 @@ pub const NSLOTS: usize = 5;
 pub const KIND: [&str; NSLOTS] = ["person", "person", "group", "group", "service"];
 pub const NAMES: [&str; 5] = ["a", "b", "c", "d", "e"];
 pub const DOMAINS: [&str; 3] = ["example.com", "d1.example", "d2.example"];
+pub const EXTIDS: [&str; 2] = ["uid=x0,ou=src", "uid=x1,ou=src"];
 
 pub fn slot_uuid(s: usize) -> Uuid {
     Uuid::from_u128(0xd1d1_0000_0000_4000_8000_0000_0000_0010 + s as u128)
@@ -41,6 +42,10 @@ pub enum Op {
     PurgeTombstones,
     Reindex,
     ClearCache,
+    /// set the synchronisation external id of a slot to one of two values
+    SetExtId(usize, usize),
+    /// revive every recycled slot with ONE revive request
+    ReviveAll,
 }
 
 #[derive(Clone, Debug, Default)]
@@ -57,6 +62,10 @@ pub struct Cfg {
     pub precreate: Vec<usize>,
     pub premembers: Vec<(usize, usize)>,
     pub props: BTreeSet<&'static str>,
+    /// external-id edits (C03) on service-account slots
+    pub extid: bool,
+    /// offer one revive request covering all recycled slots (C26)
+    pub revive_all: bool,
 }
 
 #[derive(Clone, Copy, Debug, PartialEq, Eq)]
@@ -101,6 +110,7 @@ fn mk_entry(slot: usize, name: &str) -> Entry<EntryInit, EntryNew> {
         _ => {
             e.add_ava(Attribute::Class, EntryClass::Account.to_value());
             e.add_ava(Attribute::Class, EntryClass::ServiceAccount.to_value());
+            e.add_ava(Attribute::Class, EntryClass::ExtensibleObject.to_value());
             e.add_ava(Attribute::DisplayName, Value::new_utf8s(&format!("S {slot}")));
         }
     }
@@ -214,6 +224,9 @@ impl Dir {
             for n in &alphabet {
                 out.push_str(&format!("n2u {n} -> {:?}\n", r.name_to_uuid(n).ok()));
             }
+            for x in EXTIDS {
+                out.push_str(&format!("x2u {x} -> {:?}\n", r.sync_external_id_to_uuid(x).ok().flatten()));
+            }
             for s in 0..NSLOTS {
                 let u = slot_uuid(s);
                 out.push_str(&format!("u2s {s} -> {:?}\n", r.uuid_to_spn(u).ok().flatten().map(|v| match v { Value::Spn(n, d) => format!("{n}@{d}"), other => format!("{other:?}") })));
@@ -263,6 +276,15 @@ impl Dir {
                 let want = truth.get(n).map(|s| format!("Some({})", slot_uuid(*s))).unwrap_or_else(|| "None".into());
                 if got != want {
                     out.push(("name2uuid_wrong".into(), format!("name_to_uuid({n}) = {got}, a scan of live entries says {want}")));
+                }
+            }
+            if let Some(rest) = line.strip_prefix("x2u ") {
+                let (x, got) = rest.split_once(" -> ").unwrap_or(("", ""));
+                // truth: the live entry (if any) that carries this external id
+                let owner = ents.iter().find(|(_, e)| Self::life_of(e) == Life::Live && e.get_ava_set(Attribute::SyncExternalId).map(|v| v.to_proto_string_clone_iter().any(|s| s == x)).unwrap_or(false)).map(|(s, _)| *s);
+                let want = owner.map(|s| format!("Some({})", slot_uuid(s))).unwrap_or_else(|| "None".into());
+                if got != want {
+                    out.push(("externalid2uuid_wrong".into(), format!("sync_external_id_to_uuid({x}) = {got}, a scan of live entries says {want}")));
                 }
             }
             if let Some(rest) = line.strip_prefix("u2s ") {
@@ -426,6 +448,29 @@ impl Dir {
                                 }
                             }
                         }
+                    }
+                }
+                Op::ReviveAll => {
+                    if label == "ok" {
+                        for s in 0..NSLOTS {
+                            if self.before[s] != Life::Recycled {
+                                continue;
+                            }
+                            if lives[s] != Life::Live {
+                                out.push(("revive_no_effect".into(), format!("one revive request covering slot {s} reported ok but the entry is {:?}", lives[s])));
+                                continue;
+                            }
+                            for g in &self.dmo_at_delete[s] {
+                                if *g != s && lives[*g] == Life::Live && self.before[*g] == Life::Live {
+                                    let member = ents.iter().find(|(x, _)| x == g).map(|(_, e)| e.attribute_equality(Attribute::Member, &PartialValue::Refer(slot_uuid(s)))).unwrap_or(false);
+                                    if !member {
+                                        out.push(("revive_lost_membership".into(), format!("slot {s} was a direct member of live group slot {g} when deleted; after a revive request covering several entries it is not")));
+                                    }
+                                }
+                            }
+                        }
+                    } else if !label.starts_with("err:AttributeUniqueness") {
+                        out.push(("revive_refused".into(), format!("revive of all recycled slots failed: {label}")));
                     }
                 }
                 Op::PurgeRecycled => {}
@@ -593,6 +638,17 @@ impl World for Dir {
                 }
             }
         }
+        if self.cfg.extid {
+            for &s in &slots {
+                if KIND[s] == "service" && lives[s] == Life::Live {
+                    v.push(Op::SetExtId(s, 0));
+                    v.push(Op::SetExtId(s, 1));
+                }
+            }
+        }
+        if self.cfg.revive_all && lives.iter().filter(|l| **l == Life::Recycled).count() >= 2 {
+            v.push(Op::ReviveAll);
+        }
         if self.cfg.domain_rename {
             let d = self.domain();
             for (i, dn) in DOMAINS.iter().enumerate() {
@@ -664,6 +720,22 @@ impl World for Dir {
                 });
                 if r.is_ok() {
                     self.deleted_at[*s] = None;
+                }
+                r
+            }
+            Op::SetExtId(s, x) => self.srv.write(ct, |w| w.internal_modify_uuid(slot_uuid(*s), &ModifyList::new_purge_and_set(Attribute::SyncExternalId, Value::new_iutf8(EXTIDS[*x])))),
+            Op::ReviveAll => {
+                let rec: Vec<usize> = (0..NSLOTS).filter(|s| before[*s] == Life::Recycled).collect();
+                let r = self.srv.write(ct, |w| {
+                    let f = Filter::new_recycled(f_or(rec.iter().map(|s| f_eq(Attribute::Uuid, PartialValue::Uuid(slot_uuid(*s)))).collect()))
+                        .validate(w.get_schema())
+                        .map_err(OperationError::SchemaViolation)?;
+                    w.revive_recycled(&ReviveRecycledEvent { ident: identity_internal(), filter: f })
+                });
+                if r.is_ok() {
+                    for s in &rec {
+                        self.deleted_at[*s] = None;
+                    }
                 }
                 r
             }
